@@ -34,6 +34,10 @@ def check(repo, col, tier):
     c01_solver._assembly_sparse(repo, col, "R-C15-assembly")
     # ... and the graph it is assembled on: a branch point couples the LAST compartment of the parent with the FIRST of each
     # child, for any per-branch compartment counts (a refinement ladder that refines branches unequally depends on it)
+    # several mechanisms in one compartment: their conductances and reversal currents ADD in the voltage equation (shared with C02)
+    from . import c02 as _c02
+    col.rule("R-C15-currents", "membrane currents are computed at and accumulated into the rows of their channel", 9)
+    _c02.channel_current_rows(repo, col, "R-C15-currents")
     col.rule("R-C15-ends", "branch-point edges attach at each branch's own first / last compartment", 4)
     c01_solver._ends(repo, col, "R-C15-ends")
 
